@@ -258,10 +258,8 @@ with read_list_loop (fuel : nat) (delim : Z) (s : str) (acc : list ast) {struct 
         let* (s1, q) := kg_read f true true s in
         if is_none q then Ok (if starts1 s1 delim then tl s1 else s1, rev acc)
         else
-          let* (s2, q2) :=
-            if str_is q [91] then (let* (s2, l) := read_list f 93 s1 in Ok (s2, AList l)) else Ok (s1, q) in
-          let* s3 := skip f true s2 in
-          read_list_loop f delim s3 (q2 :: acc)
+          let* s3 := skip f true s1 in
+          read_list_loop f delim s3 (q :: acc)
   end.
 
 (* ---------------------------------------------------------------- .comment *)
